@@ -724,7 +724,9 @@ fn check_inner(
 
     // 2. corpus replay (strict: every saved regression input must pass)
     let corpus_dir = root.join("corpus").join(id);
-    let files = corpus_files(&corpus_dir);
+    // XVF_NO_CORPUS=1 (sensitivity self-tests only): skip the saved witnesses so that the
+    // generated search alone has to find a defect again
+    let files = if std::env::var("XVF_NO_CORPUS").is_ok() { vec![] } else { corpus_files(&corpus_dir) };
     let mut corpus_replayed = 0u64;
     for f in &files {
         let cf = match read_case_file(f) {
